@@ -137,10 +137,23 @@ def build(T):
 
     def t32(cls, pat, **kw):
         return T.add(cls, 't32', pat, None, **kw)
-    arm('SvcA1', '%s 1111 imm24:24' % C, when=nu, family='C12')
+    # SVC / SMC: which exception the instruction generates (B9.3.14, A8.8.228); the entries themselves are spec/exceptions.py
+    svc_exc = lambda c, f: [(True, 'svc')]
+
+    def smc_exc(c, f):
+        st = c.st
+        sec_ext, virt = st['cfg.have_security_ext'], st['cfg.have_virt_ext']
+        m_ = c.mode()
+        secure = ST.is_secure(st)
+        return [(lnot(land(sec_ext, m_ != ST.USR)), 'undef'),
+                (land(virt, lnot(secure), m_ != ST.HYP, bit(st['hcr'], 19) == 1), 'hyptrap'),
+                (land(bit(st['scr'], 7) == 1, secure), 'unpred'),
+                (bit(st['scr'], 7) == 1, 'undef'),
+                (True, 'smc')]
+    arm('SvcA1', '%s 1111 imm24:24' % C, when=nu, family='C12').exc = svc_exc
     arm('UdfA1', '1110 0111 1111 imm12:12 1111 imm4:4', family='C12')
     arm('BkptA1', '%s 0001 0010 imm12:12 0111 imm4:4' % C, when=nu, unpred=lambda f, c: f['cond'] != 14, family='C12')
-    arm('SmcA1', '%s 0001 0110 (0000) (0000) (0000) 0111 imm4:4' % C, when=nu, family='C12')
+    arm('SmcA1', '%s 0001 0110 (0000) (0000) (0000) 0111 imm4:4' % C, when=nu, family='C12').exc = smc_exc
     arm('YieldA1', '%s 00110 0 10 0000 (1111) (0000) 00000001' % C, when=nu, family='C12')
     arm('SevA1', '%s 00110 0 10 0000 (1111) (0000) 00000100' % C, when=nu, family='C12')
     arm('ClrexA1', '1111 0101 0111 (1111) (1111) (0000) 0001 (1111)', family='C02')
@@ -150,7 +163,7 @@ def build(T):
     arm('PldLiteralA1', '1111 0101 U (1) 01 1111 (1111) imm12:12', family='C02')
     arm('PldRegisterA1', '1111 0111 U R 01 Rn:4 (1111) imm5:5 type:2 0 Rm:4', family='C02',
         unpred=lambda f, c: lor(f['Rm'] == 15, land(f['Rn'] == 15, f['R'] == 0)))
-    t16('SvcT1', '1101 1111 imm8:8', family='C12')
+    t16('SvcT1', '1101 1111 imm8:8', family='C12').exc = svc_exc
     t16('UdfT1', '1101 1110 imm8:8', family='C12')
     t16('BkptT1', '1011 1110 imm8:8', family='C12')
     t16('ItT1', '1011 1111 firstcond:4 mask:4', when=lambda f: f['mask'] != 0, family='C08',
@@ -158,7 +171,8 @@ def build(T):
     t16('YieldT1', '1011 1111 0001 0000', family='C12')
     t16('SevT1', '1011 1111 0100 0000', family='C12')
     t32('UdfT2', '11110 111 1111 imm4:4 1 010 imm12:12', family='C12')
-    t32('SmcT1', '11110 111 1111 imm4:4 1000 (0000) (0000) (0000)', family='C12', unpred=lambda f, c: land(c.in_it_block(), lnot(c.last_in_it_block())))
+    t32('SmcT1', '11110 111 1111 imm4:4 1000 (0000) (0000) (0000)', family='C12',
+        unpred=lambda f, c: land(c.in_it_block(), lnot(c.last_in_it_block()))).exc = smc_exc
     t32('YieldT2', '11110 0 1110 1 0 (1111) 10 (0) 0 (0) 000 00000001', family='C12')
     t32('SevT2', '11110 0 1110 1 0 (1111) 10 (0) 0 (0) 000 00000100', family='C12')
     t32('ClrexT1', '11110 0 111 01 1 (1111) 10 (0) 0 (1111) 0010 (1111)', family='C02')
